@@ -196,6 +196,7 @@ func runC04(r *Run, verifDir string) {
 	r.NotCov = append(r.NotCov, "byte-identity of the binary re-encoding after an XML/JSON round trip (value level)", "element-for-element reproduction of foreign conformant XML (OASIS vectors): needs execution", "Unicode coverage of the escapers", "2^52 threshold arithmetic beyond the hex-parse rule")
 	c.l1Hex("C04.L1")
 	c.trimCutset("C04.L1")
+	c.x8DatesTotal("C04.L10")
 	c.l1Separators()
 	c.l2Base("C04.L2")
 	c.l3JSONStrings()
@@ -219,6 +220,7 @@ func runC18(r *Run, verifDir string) {
 	c.x5TextVerbatim()
 	c.x6DelegatingEncoders()
 	c.x7JSONNumberRange()
+	c.x8DatesTotal("C18.X8")
 	c.x2WriterPanics()
 	c.l1Hex("C18.X3")
 	c.l2Base("C18.X3")
@@ -1216,14 +1218,16 @@ func (c *lexCtx) x1ParserDomain() {
 
 // x4BinaryReaderTotal: every well-formed binary item is a value: the typed reads of the binary reader fail
 // only through assertType (wrong tag/type/end of data) or Next (the following item is malformed).
-func (c *lexCtx) x4BinaryReaderTotal() {
+func (c *lexCtx) x4BinaryReaderTotal() { c.x4BinaryReaderTotalAs("C18.X4") }
+
+func (c *lexCtx) x4BinaryReaderTotalAs(rule string) {
 	r, p := c.r, c.p
-	r.Rule("C18.X4", "the binary typed reads reject no value: their only errors are assertType and Next", 10)
-	for _, m := range []string{"Integer", "LongInteger", "BigInteger", "Enum", "Bool", "TextString", "ByteString", "DateTime", "Interval", "Bitmask"} {
+	r.Rule(rule, "the binary typed reads reject no value: their only errors are assertType and Next (Struct: also the nested reader's validation and the callback)", 10)
+	for _, m := range []string{"Integer", "LongInteger", "BigInteger", "Enum", "Bool", "TextString", "ByteString", "DateTime", "Interval", "Bitmask", "Struct"} {
 		fn := p.Func("ttlv", "ttlvReader", m)
 		key := "ttlv.ttlvReader." + m + "/total"
 		if fn == nil {
-			r.Unk("C18.X4", key, token.NoPos, "anchor missing")
+			r.Unk(rule, key, token.NoPos, "anchor missing")
 			continue
 		}
 		bad := token.NoPos
@@ -1248,14 +1252,20 @@ func (c *lexCtx) x4BinaryReaderTotal() {
 					if id.pkg == ttlvPath && id.recv == "ttlvReader" {
 						return // delegation to another typed read (Bitmask -> Integer)
 					}
+					if m == "Struct" && id.is(ttlvPath, "", "newTTLVReader") {
+						return // the nested reader's validation
+					}
 				}
+			}
+			if call, ok := ev.(*ssa.Call); ok && m == "Struct" && call.Call.StaticCallee() == nil && !call.Call.IsInvoke() {
+				return // the error of the callback that decodes the fields
 			}
 			bad = ret.Pos()
 		})
 		if bad.IsValid() {
-			r.Bad("C18.X4", key, bad, "ttlvReader.%s can fail on the value of a well-formed item: a value that the text readers accept and the binary writer emits is then rejected when the forwarded binary message is decoded again", m)
+			r.Bad(rule, key, bad, "ttlvReader.%s can fail on the value of a well-formed item: a value that the text readers accept and the binary writer emits is then rejected when the forwarded binary message is decoded again", m)
 		} else {
-			r.OK("C18.X4", key, fn.Pos(), "fails only through assertType or Next")
+			r.OK(rule, key, fn.Pos(), "fails only through assertType or Next")
 		}
 	}
 }
@@ -1974,5 +1984,90 @@ func (c *lexCtx) trimCutset(rule string) {
 	}
 	if n == 0 {
 		r.OK(rule, "ttlv.readers/no-cutset-trim", token.NoPos, "no multi-character cutset trim in the token readers")
+	}
+}
+
+// ---------------------------------------------------------------- X8
+
+// x8DatesTotal: a date the XML/JSON readers have parsed from its RFC 3339 spelling is returned: nothing rejects it
+// afterwards. KMIP date-times are signed POSIX times; the writers spell every year 1..9999 (dates before 1970
+// included) and the binary codec carries them, so a range test after the parse makes the text forms refuse what the
+// other encodings and the writers produce.
+func (c *lexCtx) x8DatesTotal(rule string) {
+	r, p := c.r, c.p
+	r.Rule(rule, "a date parsed from RFC 3339 text is returned as is (no range rejection after a successful parse)", 2)
+	for _, recv := range []string{"xmlReader", "jsonReader"} {
+		fn := p.Func("ttlv", recv, "DateTime")
+		key := "ttlv." + recv + ".DateTime/parsed-date-returned"
+		if fn == nil {
+			r.Unk(rule, key, token.NoPos, "anchor missing")
+			continue
+		}
+		var parse *ssa.Call
+		allInstrs(fn, func(in ssa.Instruction) {
+			if call, ok := in.(*ssa.Call); ok && callID(&call.Call).is("time", "", "Parse") {
+				parse = call
+			}
+		})
+		if parse == nil {
+			r.Unk(rule, key, fn.Pos(), "time.Parse call not found")
+			continue
+		}
+		// the block reached when the parse error is nil
+		var okBlock *ssa.BasicBlock
+		for _, ref := range *parse.Referrers() {
+			ex, ok := ref.(*ssa.Extract)
+			if !ok || ex.Index != 1 {
+				continue
+			}
+			for _, r2 := range *ex.Referrers() {
+				bo, ok := r2.(*ssa.BinOp)
+				if !ok || !isNilConst(bo.Y) {
+					continue
+				}
+				for _, r3 := range *bo.Referrers() {
+					if iff, ok := r3.(*ssa.If); ok {
+						if bo.Op == token.NEQ {
+							okBlock = iff.Block().Succs[1]
+						} else if bo.Op == token.EQL {
+							okBlock = iff.Block().Succs[0]
+						}
+					}
+				}
+			}
+		}
+		if okBlock == nil {
+			r.Unk(rule, key, parse.Pos(), "the test of the parse error was not found")
+			continue
+		}
+		bad := token.NoPos
+		n := 0
+		for _, b := range fn.Blocks {
+			ret, ok := b.Instrs[len(b.Instrs)-1].(*ssa.Return)
+			if !ok || len(ret.Results) != 2 || !okBlock.Dominates(b) {
+				continue
+			}
+			n++
+			switch e := ret.Results[1].(type) {
+			case *ssa.Call:
+				if callID(&e.Call).name != "Next" {
+					bad = ret.Pos()
+				}
+			case *ssa.Const:
+				if !isNilConst(e) {
+					bad = ret.Pos()
+				}
+			default:
+				bad = ret.Pos()
+			}
+		}
+		switch {
+		case bad.IsValid():
+			r.Bad(rule, key, bad, "%s.DateTime can reject a date after it was parsed successfully from its RFC 3339 spelling (a range or sign test on the parsed time): dates the writers emit and the binary encoding carries — e.g. before 1970 — are refused by this text form only", recv)
+		case n == 0:
+			r.Unk(rule, key, fn.Pos(), "no return after the successful parse found")
+		default:
+			r.OK(rule, key, fn.Pos(), "%d return(s) after the successful parse, each returning the date with the result of Next()", n)
+		}
 	}
 }
